@@ -112,7 +112,7 @@ void harness(void)
 #elif VW_OP == 4 || VW_OP == 5
     /* node initialisation / NMT reset: every PDO is cleared, those with a communication record are (re)activated */
     __CPROVER_assume(!H_MAPN_OK || H_MAPN <= VW_MAPN_MAX);
-    for (int i = 1; i <= 8; i++) { __CPROVER_assume(((uint8_t)H_MAPENT[i] >> 3) >= 1); }
+    /* (the length byte of a stored mapping entry is whatever a client wrote: entries of 0 bytes are part of the input space) */
     /* pre-state: ANY well-formed PDO / SYNC state - the call site CONmtSetMode(OPERATIONAL) runs these on a node that may have
      * been OPERATIONAL before (PDOs active, SYNC tables filled, timers running), not only on fresh tables */
     /* (a PDO without communication record has never been activated - the dictionary does not change its structure; that it then
@@ -137,7 +137,7 @@ void harness(void)
 #endif
 #else
     __CPROVER_assume(!H_MAPN_OK || H_MAPN <= VW_MAPN_MAX);
-    for (int i = 1; i <= 8; i++) { __CPROVER_assume(((uint8_t)H_MAPENT[i] >> 3) >= 1); }
+    /* (the length byte of a stored mapping entry is whatever a client wrote: entries of 0 bytes are part of the input space) */
     (void)CORPdoReset(V_NODE.RPdo, H_PN);
     CO_ERR E = V_NODE.Error;
     __CPROVER_assert(ST_SAME(G_T) && TP_SAME(G_T), "frame: re-activating an RPDO leaves every TPDO and the TPDO SYNC table alone");
